@@ -10,4 +10,10 @@ Example C10_example :
   let s := run cfg2 tr_cancel in clean s /\ groups s = [(GGen 0 0, [0; 1; 2])].
 Proof. vm_compute. repeat split; reflexivity. Qed.
 
+(** Monitor soundness: the extracted monitor for C10 (all four clauses) never rejects a stream of the model. *)
+From TP Require PMonSound10_C10 PObs PMon.
+Theorem mon_sound : forall c tr, clean (run c tr) -> PMon.ok_C10 c (PObs.observe c tr) = true.
+Proof. exact PMonSound10_C10.mon_C10_sound. Qed.
+
 Print Assumptions C10.
+Print Assumptions mon_sound.
